@@ -16,8 +16,8 @@ TECHNIQUE = ("Coq proof over an ideal-AEAD Section pair (seal/unseal round trip,
              "(POST/PUT: refuted for the code as it is, proved for the guarded variant) + in-Coq correspondence against the real sealer and the real "
              "filehandler over a sandbox tree")
 LEVEL_TEXT = ("Proof (P): unseal_seal, tamper_rejected/unseal_sound/window_enforced are proved for every request under the ideal-AEAD hypotheses "
-              "(visible in the statements); get_confined is proved for every path string; post_confined is REFUTED for the faithful model of today's "
-              "POST/PUT branch (witness /../x/<hash>, F4) and proved for the branch with the GET guard applied. Partial: AES-GCM, net/url String/Parse, "
+              "(visible in the statements); get_confined is proved for every path string; post_confined is REFUTED for the faithful model of the unguarded "
+              "POST/PUT branch (witness /../x/<hash>, F4) and proved for the branch with the GET guard applied (which of the two the tree implements is read off a canary request). Partial: AES-GCM, net/url String/Parse, "
               "base64 and the OS are modelled, not verified; symbolic links are outside the lexical confinement statement.")
 LEVEL_NOTE = ("Trusted: Coq kernel, translator (ArchiveFileSuffix, hash.StringLen), Go harness + Python glue. Hypotheses in the statements: aead_ideal "
               "(open k n c a = Some p <-> c = seal k n p a) and aead_binds (a ciphertext determines its nonce and associated data). Modelled, not verified: "
@@ -26,7 +26,7 @@ LEVEL_NOTE = ("Trusted: Coq kernel, translator (ArchiveFileSuffix, hash.StringLe
               "time.Now at millisecond resolution, os.Stat/MkdirAll (NUL and NAME_MAX only), NBS store creation (observed: only the table file appears).")
 THEOREMS = ["unseal_seal", "unseal_sound", "tamper_rejected", "forged_payload_rejected", "window_enforced", "get_confined", "post_confined_guarded",
             "post_confined_refuted", "unseal_seal_escaped_refuted", "tamper_path_escaped_refuted", "parse_fmt_int"]
-REFUTED = ["post_confined (today's POST/PUT branch): post_confined_refuted", "unseal_seal for paths that need percent-encoding: unseal_seal_escaped_refuted",
+REFUTED = ["post_confined for the POST/PUT branch as it was before the fix (no clean-and-reject; F4): post_confined_refuted — the guarded branch is proved by post_confined_guarded", "unseal_seal for paths that need percent-encoding: unseal_seal_escaped_refuted",
            "tamper_rejected(path) for paths that need percent-encoding: tamper_path_escaped_refuted"]
 RULE = ("seal cases: URL paths (plain repo/hash paths, dot segments, doubled slashes, bytes that need percent-encoding, literal %2f, first-segment colon) x "
         "url-encoded queries x one mutation of the sealed URL (none, path, req dropped/garbled/bit-flipped/swapped with another sealed URL's, nonce "
